@@ -44,6 +44,9 @@ FreeString(d) == d.prim = "string" /\ ~d.hasEnum /\ d.pats = <<>> /\ d.union = <
 RECURSIVE LeafTypes(_)
 LeafTypes(tn) == IF ST[tn].union # <<>> THEN UNION {LeafTypes(ST[tn].union[i]) : i \in DOMAIN ST[tn].union} ELSE {tn}
 
+\* 10^400 (beyond the range of a double) and 2^53 + 1 (beyond its precision): valid xs:decimal / xs:integer values
+BigInt == <<49>> \o [i \in 1..400 |-> 48]
+Int53 == <<57, 48, 48, 55, 49, 57, 57, 50, 53, 52, 55, 52, 48, 57, 57, 51>>
 Bounds(d) == (IF d.hasMin THEN {d.minV - 1, d.minV, d.minV + 1} ELSE {}) \cup
              (IF d.hasMax THEN {d.maxV - 1, d.maxV, d.maxV + 1} ELSE {})
 \* the literals of the type this type restricts (a restriction must refuse what it removed)
@@ -59,6 +62,7 @@ LeafTokens(tn) ==
              \cup {FloatTok(n * 10, 0 - 1) : n \in (Bounds(d) \cup {3})}                 \* 3.0, bound.0
              \cup {FloatTok(1, e) : e \in {0 - 7, 0 - 5, 0 - 4, 15, 16, 22}}             \* magnitudes (repr switches to exponent form)
              \cup {Tok("str", IntCps(n)) : n \in {1}}                                   \* numeric text offered as str
+             \cup {Tok("int", BigInt), Tok("int", Int53)}                               \* ints no binary float can hold
         ELSE {Tok("int", IntCps(1)), FloatTok(15, 0 - 1)})
   \cup (IF FreeString(d) THEN {Tok("str", x) : x \in EscStrings} ELSE {})
 
